@@ -100,7 +100,7 @@ pub struct C07 {
 
 const SPLIT_SYMS: &[&str] = &["a", "b", "é", ",", " ", "😀"];
 const JOIN_STRS: &[&str] = &["", "a", "b,", "é"];
-const NUMERAL_SYMS: &[&str] = &["0", "1", "9", "a", "f", "F", "z", "-", "+", ".", "e", " "];
+const NUMERAL_SYMS: &[&str] = &["0", "1", "9", "a", "f", "F", "z", "-", "+", ".", "e", " ", "é", "€"];
 const RADICES: &[&str] = &["", " with 2", " with 3", " with 8", " with 10", " with 16", " with 35", " with 36", " with 2.0", " with 16 plus 0", " with \"16\"", " with true", " with mysterious", " with 65536", " with 4294967298", " with 0", " with 1", " with 37", " with -1", " with 2.5", " with 1e30", " with 0 over 0", " with \"x\"", " with null", " with 258", " with 272", " with 65552", " with 4294967312", " with -16", " with -2", " with 16.9", " with 15.999999999999998", " with 1 over 0", " with 9223372036854775808"];
 const CODEPOINTS: &[&str] = &["0", "65", "127", "128", "233", "255", "256", "2047", "2048", "55295", "55296", "56000", "57343", "57344", "65535", "65536", "128512", "1114111", "1114112", "2147483648", "4294967296", "4294967361", "-4294967231", "9223372036854775808", "-1", "-65", "1.5", "65.5", "0 over 0", "1 over 0", "-1 over 0", "1e30", "0 times -1"];
 const ROUND_VALUES: &[&str] = &["0", "0 times -1", "0.4", "-0.4", "0.5", "-0.5", "1.5", "2.5", "-2.5", "2.6", "-2.6", "2251799813685248.5", "4503599627370497", "9007199254740992", "0.49999999999999994", "1000000000000000.5", "1e300", "0 over 0", "1 over 0", "-1 over 0"];
